@@ -53,6 +53,9 @@ class Result:
         # one report per key
         if any(v.key == key for v in self.violations):
             return
+        if len(self.violations) >= 8:  # enough to diagnose; the first ones are the simplest
+            self.suppressed = getattr(self, "suppressed", 0) + 1
+            return
         self.violations.append(Violation(key, clause, detail))
 
 
@@ -130,8 +133,11 @@ def finalize(res: Result, tier: str, seed: int, wall_s: float) -> int:
         "repo_head": repo_head(),
         "notes": res.notes,
     }
-    os.makedirs(EVIDENCE_DIR, exist_ok=True)
-    path = os.path.join(EVIDENCE_DIR, f"{res.property_id}.json")
+    ev_dir = EVIDENCE_DIR
+    if os.environ.get("VERIF_NO_EVIDENCE"):  # mutant runs must not overwrite the real evidence
+        ev_dir = os.path.join(REPLAY_DIR, "mutant-evidence")
+    os.makedirs(ev_dir, exist_ok=True)
+    path = os.path.join(ev_dir, f"{res.property_id}.json")
     tmp = path + ".tmp"
     with open(tmp, "w", encoding="utf-8") as fh:
         json.dump(ev, fh, indent=1, sort_keys=True)
